@@ -55,7 +55,7 @@ def intValue (ext : Ext F) : GoVal F → Option Int
 /-- **output oracle (C05 leaf).**  `(r, e)` is an acceptable outcome of coercing resolver value `v` to
 scalar `s`: the unconverted value never leaks (`e → r = nil`); a non-null result has the JSON shape of
 `s`; an Int/Int64 result is in range *and equals the resolver's value* (no silent truncation); a
-Float/Float64 result is finite. -/
+Float/Float64 result is finite; a String/ID made from an integer is its decimal rendering. -/
 def checkOut (ext : Ext F) (s : Scalar) (v : GoVal F) (out : GoVal F × Bool) : Bool :=
   let (r, e) := out
   match r with
@@ -67,6 +67,8 @@ def checkOut (ext : Ext F) (s : Scalar) (v : GoVal F) (out : GoVal F × Bool) : 
      | .int64, .int _ n => inRange64 n && intValue ext v == some n
      | .float, .flt _ x => ext.isFinite x
      | .float64, .flt _ x => ext.isFinite x
+     | .string, .str t => (match v with | .int _ n => t == toString n | _ => true)
+     | .id, .str t => (match v with | .int _ n => t == toString n | _ => true)
      | _, _ => true)
 
 /-- the kind a resolver must receive for an argument of scalar `s` -/
@@ -107,6 +109,7 @@ def armSoundOut (s : Scalar) (k : Kind) (a : Action) : Bool :=
      | .int64, .i64 => fitsIn k .i64
      | _, _ => false)              -- conversions to float: finiteness is an `Ext` matter, see `armFiniteOut`
   | .fmtInt => k.isInt && (s == .string || s == .id) && fitsIn k .i64
+  | .fmtUint => k.isInt && (s == .string || s == .id)
   | .boolStr => k == .bool && s == .string
   | .symStr => k == .sym && s == .string
   | .neZero => (k.isInt || k.isFloat) && s == .boolean
@@ -152,15 +155,19 @@ def armSoundOutT (s : Scalar) (k : Kind) (a : Action) : Bool :=
 
 /-- **response-level arm test.**  With `nullOnErr` (the leaf branch of `resolve` drops the value when
 `CoerceOut` returns an error) a `…Keep` arm is sound when its *success* path is: Int64 ← string
-(`ParseInt(s, 10, 64)` is the value itself), Boolean ← string, Time ← string.  Int ← string still
-truncates silently beyond 32 bits and Float ← string still lets "Inf"/"NaN" through, so those stay unsound. -/
+(`ParseInt(s, 10, 64)` is the value itself), Int ← string parsed with bit size 32, Boolean ← string,
+Time ← string, and the range-checked integer narrowings (`convCheckedKeep`).  Int ← string parsed with
+bit size 64 and then narrowed truncates silently, and Float ← string lets "Inf"/"NaN" through: unsound. -/
 def armSoundOutR (nullOnErr : Bool) (s : Scalar) (k : Kind) (a : Action) : Bool :=
   armSoundOutT s k a ||
-  (nullOnErr && k == .str &&
+  (nullOnErr &&
     (match s, a with
-     | .int64, .parseIntKeep .i64 => true
-     | .boolean, .parseBoolKeep => true
-     | .time, .timeParseKeep => true
+     | .int64, .parseIntKeep .i64 => k == .str
+     | .int, .parseInt32Keep => k == .str
+     | .boolean, .parseBoolKeep => k == .str
+     | .time, .timeParseKeep => k == .str
+     | .int, .convCheckedKeep .i32 => k.isInt
+     | .int64, .convCheckedKeep .i64 => k.isInt
      | _, _ => false))
 
 /-- what the theorems assume of the Go runtime's floats: converting any Go integer gives a finite
